@@ -151,17 +151,36 @@ func (h *harness) aliasCase(r *rng, name string, nops int) {
 			}
 		case 4:
 			it := db.Items()
-			for n := 0; n < 5; n++ {
+			scanDirty := map[string]bool{}
+			for n := 0; n < 12; n++ {
 				k, v, err := it.Next()
 				if err != nil {
 					break
 				}
 				keep = append(keep, kept{"Next(key)", k, append([]byte(nil), k...)}, kept{"Next(value)", v, append([]byte(nil), v...)})
+				if want, ok := model[string(k)]; ok && !bytes.Equal(v, want) && !scanDirty[string(k)] {
+					h.emit("aliasfail case=%s fs=%s Next returned a wrong value for key %s (queued slice changed under the iterator?)", name, fsName, k)
+					nfail++
+				}
 				if r.chance(40) {
 					kk := key()
-					_ = db.Put(kk, patternBytes(r.intn(100), 9))
-					model[string(kk)] = patternBytes(0, 0)
-					model[string(kk)], _ = db.Get(kk)
+					nv := patternBytes(r.intn(100), byte(r.next()))
+					_ = db.Put(kk, append([]byte(nil), nv...))
+					model[string(kk)] = nv
+					scanDirty[string(kk)] = true
+				}
+				if r.chance(25) {
+					// overwrite everything and compact: segments the iterator may have queued slices of go away
+					for j := 0; j < nk; j++ {
+						kk := []byte(fmt.Sprintf("ak%02d", j))
+						if _, ok := model[string(kk)]; ok {
+							nv := patternBytes(20+r.intn(60), byte(r.next()))
+							_ = db.Put(kk, append([]byte(nil), nv...))
+							model[string(kk)] = nv
+							scanDirty[string(kk)] = true
+						}
+					}
+					_, _ = db.Compact()
 				}
 			}
 		case 5:
